@@ -111,7 +111,7 @@ pub fn total(tier: u8) -> usize {
     if tier == 0 {
         64
     } else {
-        2000
+        240
     }
 }
 
